@@ -60,6 +60,12 @@ namespace mfuse
 
                 e->SetNext(table[hash]);
                 table[hash] = e;
+
+                if (!defaultEntry)
+                {
+                    // insertEntry() treats a null defaultEntry as "the set is empty"
+                    defaultEntry = e;
+                }
             }
         }
         else
